@@ -626,8 +626,18 @@ impl<D: Distance> Writer<D> {
                 Some(path) => TmpNodes::new_in(path)?,
                 None => TmpNodes::new()?,
             };
-            let (root_id, nb_new_tree_nodes) =
-                self.make_tree_in_file(options, &frozen_reader, rng, &to_insert, &mut tmp_nodes)?;
+            // If some items could not be selected we must split the selected ones even when they would fit in a
+            // single descendant: re-inserting the remaining items in that descendant would recreate the same
+            // too-large descendant and this loop would never end.
+            let force_split = !descendants.is_empty();
+            let (root_id, nb_new_tree_nodes) = self.make_tree_in_file(
+                options,
+                &frozen_reader,
+                rng,
+                &to_insert,
+                &mut tmp_nodes,
+                force_split,
+            )?;
             // We cannot update our father so we're going to overwrite the new root node as ourselves.
             tmp_nodes.remap(root_id.item, descendant_id);
 
@@ -1129,13 +1139,14 @@ impl<D: Distance> Writer<D> {
         rng: &mut R,
         item_indices: &RoaringBitmap,
         tmp_nodes: &mut TmpNodes<NodeCodec<D>>,
+        force_split: bool,
     ) -> Result<(NodeId, u64)> {
         opt.cancelled()?;
         if item_indices.len() == 1 {
             return Ok((NodeId::item(item_indices.min().unwrap()), 0));
         }
 
-        if self.fit_in_descendant(opt, item_indices.len()) {
+        if !force_split && self.fit_in_descendant(opt, item_indices.len()) {
             let item_id = reader.concurrent_node_ids.next()?;
             let item = Node::Descendants(Descendants { descendants: Cow::Borrowed(item_indices) });
             tmp_nodes.put(item_id, &item)?;
@@ -1187,8 +1198,10 @@ impl<D: Distance> Writer<D> {
                 )
             };
 
-        let (left, l) = self.make_tree_in_file(opt, reader, rng, &children_left, tmp_nodes)?;
-        let (right, r) = self.make_tree_in_file(opt, reader, rng, &children_right, tmp_nodes)?;
+        let (left, l) =
+            self.make_tree_in_file(opt, reader, rng, &children_left, tmp_nodes, false)?;
+        let (right, r) =
+            self.make_tree_in_file(opt, reader, rng, &children_right, tmp_nodes, false)?;
         let normal = SplitPlaneNormal { normal, left, right };
 
         let new_node_id = reader.concurrent_node_ids.next()?;
